@@ -18,8 +18,8 @@ trap 'rm -rf "$SCR"' EXIT
 # by seqcheck, schedules by schedcheck; the second run folds the first one's
 # evidence in and the worse exit code wins)
 case "$ID" in
-  C04|C11|C12|C14|C16|TOY) BINS="schedcheck" ;;
-  C17|C20) BINS="seqcheck schedcheck" ;;
+  C04|C11|C12|C14|TOY) BINS="schedcheck" ;;
+  C16|C17|C20) BINS="seqcheck schedcheck" ;;
   *) BINS="seqcheck" ;;
 esac
 if [ -n "${VERIF_BIN:-}" ]; then BINS=$VERIF_BIN; fi
@@ -41,6 +41,17 @@ for BIN in $BINS; do
     echo "TOOLING-ERROR: harness build failed against /repo's working tree (no verdict):" >&2
     head -40 "$SCR/build.log" >&2
     exit 3
+  fi
+  if [ "$ID" = C16 ] && [ "$BIN" = seqcheck ]; then
+    # crolt is package main: its explorer is injected into the package (inject/crolt)
+    # and the instrumented crolt binary is run as a subprocess by seqcheck
+    (cd $VERIF/harness && go build -overlay "$SCR/ov$LEVEL/overlay.json" -o "$SCR/crolt-driver" github.com/Comcast/rulio/crolt) 2> "$SCR/build.log"
+    if [ $? -ne 0 ]; then
+      echo "TOOLING-ERROR: crolt driver build failed against /repo's working tree (no verdict):" >&2
+      head -40 "$SCR/build.log" >&2
+      exit 3
+    fi
+    export VERIF_CROLT_BIN="$SCR/crolt-driver"
   fi
   if [ $N -gt 1 ]; then export VERIF_APPEND_EVIDENCE=1; fi
   VERIF_SCRATCH="$SCR" "$SCR/$BIN" "$ID" "$@"
